@@ -187,6 +187,8 @@ class RepeatedNodeWrapper(MutableSequence[_M]):
         if isinstance(index, int):
             assert not isinstance(value, Iterable)
             item = self._repeated.items[index]
+            if index < 0:
+                index += len(self._repeated.items)
             self._repeated.token_store.splice(value.detach(), item.first_token, item.last_token)
             value.reattach(self._repeated.token_store)
             self._repeated.items[index] = value
@@ -217,7 +219,8 @@ class RepeatedNodeWrapper(MutableSequence[_M]):
             self._notify()
 
     def insert(self, index: int, value: _M) -> None:
-        index = min(index, len(self._repeated.items))
+        length = len(self._repeated.items)
+        index = max(index + length, 0) if index < 0 else min(index, length)
         self._insert_tokens(index, [value])
         value.reattach(self._repeated.token_store)
         self._repeated.items.insert(index, value)
